@@ -62,8 +62,11 @@ CHECKS = {
         design="7/C13"),
     "C05": dict(
         category="model_checking",
-        technique="TLA+ spec (Rolling.tla) model-checked by TLC; every complete behaviour of the history-carrying "
-                  "instances replayed on the real RollingFileAppender with directory comparison after every operation",
+        technique="TLA+ spec (Rolling.tla) model-checked by TLC (exhaustive in small instances, -simulate for long "
+                  "lifetimes); every complete behaviour of the history-carrying instances replayed on the real "
+                  "RollingFileAppender with directory comparison after every operation (spec->impl); traces of 2-4 real "
+                  "threads validated against the same specification (Trace_Rolling.tla, impl->spec); "
+                  "BackgroundRotation.tla model-checked (with liveness) and bound through a second harness build",
         text="Rolling.tla is a step machine of append (get_writer, pre-trigger, roller steps, reopen, write+flush, "
              "post-trigger, ack) over a directory with restarts, faults, obstacles and crashes. TLC checks "
              "GapFreeSuffix (oldest-to-newest reading is a suffix of the written stream), NotLessThanIdeal (nothing is "
@@ -136,8 +139,11 @@ CHECKS = {
         design="7/C04"),
     "C15": dict(
         category="model_checking",
-        technique="TLA+ specs Reconfig.tla (trace validation of real logging / reconfiguring threads, impl->spec) and "
-                  "Reloader.tla (every edit/poll history replayed through the guarded run_once API, spec->impl)",
+        technique="TLA+ specs Reconfig.tla (trace validation of real logging / reconfiguring threads, impl->spec), "
+                  "Reloader.tla (every edit/poll history replayed through the guarded run_once API, spec->impl; recorded "
+                  "lifetimes of the real refresh thread validated as traces, impl->spec) and ReloaderLive.tla (the loop "
+                  "at the grain of its system calls: TLC liveness under weak fairness with two negative controls; every "
+                  "behaviour replayed through init_file and the real refresh thread, one child process each)",
         text="Reconfig.tla: one swapped snapshot, log = load once then fan-out, set_config = build / set max / store; "
              "TLC checks SnapshotWasCurrent for 2 loggers x 1-2 reconfigurers. Real threads are then traced (directed: "
              "swap while a logger is parked inside appender 1/2/3, swap between load and fan-out, re-entrant "
@@ -147,7 +153,9 @@ CHECKS = {
              "run_once; AppliesValid, KeepsOnBad, NoSwapIfUnchanged, StopsOnlyOnRateRemoval are TLC action properties "
              "and every history of the bounded instance is replayed in YAML/JSON/TOML with explicit mtimes, comparing "
              "the result class, the active version, the rate and whether the logger was swapped.",
-        note=TLC_BASE + "; free-running schedules are sampled; the refresh thread's lifetimes follow 3 fixed scripts",
+        note=TLC_BASE + "; free-running schedules are sampled; the refresh thread's recorded lifetimes follow 3 fixed scripts; a poll that "
+             "raced with an edit is compared by its settled state only; an edit that reproduces the remembered modification "
+             "time is outside the model (stated as the editor's promise)",
         design="7/C15"),
     "C19": dict(
         category="model_checking",
